@@ -44,8 +44,10 @@ def check(run):
         run.ob("C20.R2", "%s:Pairs-sizes:%s" % (MM, z), ok, site, "" if ok else "paired codes %s/%s disagree on bz/nz/mz/az: %s vs %s" % (z, n, sizes.get(z), sizes.get(n)))
     pick = ix.func(MM, "Memoer.pick")
     disp = {}
+    # the gram code is whichever local indexes self.Sizes
+    codes = {dotted(n.slice) for n in walk_local(pick.node) if isinstance(n, ast.Subscript) and dotted(n.value) == "self.Sizes"}
     for n in walk_local(pick.node):
-        if isinstance(n, ast.Compare) and dotted(n.left) == "code" and isinstance(n.ops[0], ast.In) and dotted(n.comparators[0]) in ("ZeroDex", "GramDex", "AckDex"):
+        if isinstance(n, ast.Compare) and dotted(n.left) in codes and isinstance(n.ops[0], ast.In) and dotted(n.comparators[0]) in ("ZeroDex", "GramDex", "AckDex"):
             disp.setdefault(dotted(n.comparators[0]), 0)
             disp[dotted(n.comparators[0])] += 1
     ok = disp == {"ZeroDex": 2, "GramDex": 2, "AckDex": 2}
@@ -67,26 +69,39 @@ def check(run):
     fuse = ix.func(MM, "Memoer.fuse")
     refuse = [n for n in walk_local(fuse.node) if isinstance(n, ast.If) and n.body and isinstance(n.body[-1], ast.Return)
               and getattr(n.body[-1].value, "value", 0) is None]
-    ok = bool(refuse) and "len(grams) < cnt" in unparse(refuse[0].test)
+    gparam, cparam = fuse.params()[0][1:3]
+    ok = bool(refuse) and ("len(%s) < %s" % (gparam, cparam)) in unparse(refuse[0].test)
     run.ob("C20.R5", "%s:refuses-incomplete" % fuse.fq, ok, run.site(fuse), "" if ok else "fuse() does not refuse when fewer than cnt grams are present")
     loops = [n for n in walk_local(fuse.node) if isinstance(n, ast.For)]
-    ok = bool(loops) and unparse(loops[0].iter) == "range(cnt)" and any(
-        isinstance(c, ast.Call) and method_call(c) == ("memo", "extend") and unparse(c.args[0]) == "grams[%s]" % dotted(loops[0].target)
+    result = {dotted(x) for n in walk_local(fuse.node) if isinstance(n, ast.Return) and n.value is not None
+              for x in ast.walk(n.value) if isinstance(x, ast.Name)}
+    ok = bool(loops) and unparse(loops[0].iter) == "range(%s)" % cparam and any(
+        isinstance(c, ast.Call) and (method_call(c) or (None, None))[1] == "extend" and method_call(c)[0] in result
+        and unparse(c.args[0]) == "%s[%s]" % (gparam, dotted(loops[0].target))
         for c in ast.walk(loops[0]))
     run.ob("C20.R5", "%s:numeric-order" % fuse.fq, ok, run.site(fuse), "" if ok else "fuse() must concatenate grams[i] for i in range(cnt) (numeric, not dict order)")
     rend = ix.func(MM, "Memoer.rend")
-    init = any(isinstance(n, ast.Assign) and dotted(n.targets[0]) == "gn" and getattr(n.value, "value", None) == 0 for n in rend.node.body)
     loop = [n for n in walk_local(rend.node) if isinstance(n, ast.While)]
-    inc = bool(loop) and isinstance(loop[0].body[-1], ast.AugAssign) and dotted(loop[0].body[-1].target) == "gn" and getattr(loop[0].body[-1].value, "value", None) == 1
-    app = bool(loop) and any(isinstance(s, ast.Expr) and isinstance(s.value, ast.Call) and method_call(s.value) == ("grams", "append") for s in loop[0].body)
+    inc = bool(loop) and isinstance(loop[0].body[-1], ast.AugAssign) and isinstance(loop[0].body[-1].op, ast.Add) \
+        and isinstance(loop[0].body[-1].target, ast.Name) and getattr(loop[0].body[-1].value, "value", None) == 1
+    counter = loop[0].body[-1].target.id if inc else None       # the gram number is the local stepped at the end of the loop
+    init = any(isinstance(n, ast.Assign) and dotted(n.targets[0]) == counter and getattr(n.value, "value", None) == 0 for n in rend.node.body)
+    returned = {dotted(n.value) for n in walk_local(rend.node) if isinstance(n, ast.Return)}
+    app = bool(loop) and any(isinstance(s, ast.Expr) and isinstance(s.value, ast.Call) and (method_call(s.value) or (0, 0))[1] == "append"
+                             and method_call(s.value)[0] in returned for s in loop[0].body)
     run.ob("C20.R5", "%s:numbers-from-zero" % rend.fq, init and inc and app, run.site(rend),
            "" if init and inc and app else "rend() must number grams 0,1,2.. (gn = 0; one append and gn += 1 per gram)")
     run.floor("C20.R5", 4)
     # rend: the gram count is computed from the byte length of the buffer that is sliced
-    mem_defs = [n for n in rend.node.body if isinstance(n, ast.Assign) and dotted(n.targets[0]) == "memo"]
-    ml = [n for n in rend.node.body if isinstance(n, ast.Assign) and dotted(n.targets[0]) == "ml"]
-    ok = bool(mem_defs) and bool(ml) and unparse(ml[0].value) == "len(memo)" and "encode" in unparse(mem_defs[0].value) and mem_defs[0].lineno < ml[0].lineno \
-        and any("ml" in unparse(n.value) for n in rend.node.body if isinstance(n, ast.Assign) and dotted(n.targets[0]) == "gc")
+    mparam = rend.params()[0][1]
+    mem_defs = [n for n in rend.node.body if isinstance(n, ast.Assign) and dotted(n.targets[0]) == mparam]
+    ml = [n for n in rend.node.body if isinstance(n, ast.Assign) and isinstance(n.targets[0], ast.Name) and unparse(n.value) == "len(%s)" % mparam]
+    mlv = ml[0].targets[0].id if ml else None
+    # the gram count is the ceil() expression that is later written into the zeroth head
+    cnts = [n for n in rend.node.body if isinstance(n, ast.Assign) and isinstance(n.targets[0], ast.Name)
+            and any(isinstance(c, ast.Call) and (dotted(c.func) or "").endswith("ceil") for c in ast.walk(n.value))]
+    ok = bool(mem_defs) and bool(ml) and "encode" in unparse(mem_defs[0].value) and mem_defs[0].lineno < ml[0].lineno \
+        and bool(cnts) and all(any(isinstance(x, ast.Name) and x.id == mlv for x in ast.walk(n.value)) for n in cnts)
     run.ob("C20.R5", "%s:count-from-byte-length" % rend.fq, ok, run.site(rend, ml[0]) if ml else run.site(rend),
            "" if ok else "the gram count must be computed from len() of the encoded byte buffer that the loop slices (characters != bytes for non-ASCII memos)")
     # R7 order independence: accepting a gram must not depend on per-memo state written by other grams
